@@ -91,7 +91,7 @@ PROPS = {
                 rule="runs (pairs vs logged iterates and user gradients, bit-exact) and random positive-curvature pair sets for the diagonal utility; non-trivial = >=2 pairs",
                 explanation="theorem C18_pairs on the driver model + diag_spec; driver correspondence compares the pairs bit-for-bit",
                 assumptions=COMMON_ASSUME),
-    "C19": dict(monitor=K, level="proof", corr=[],
+    "C19": dict(monitor=K, level="proof", corr=["bench"],
                 rule="8 function/gradient pairs, n 1..12, random points in [-5,5]^n away from singularities, 6th-order central differences",
                 explanation="theorems over R (Coquelicot) about the gradients regenerated from benchmarks.py by the translator, every dimension",
                 assumptions=COMMON_ASSUME + ["NumPy's elementary functions approximate their real counterparts"]),
